@@ -195,6 +195,28 @@ def rule_loop(ctx, rep):
                          (a[0] == "ne" and a[2] == ("c", 0) and a[1][0] == "load" and a[1][1].endswith("in_progress_destroy")) for a in atoms)
                 rep.check(ok, "C09.loop", "resize.exit@B%d" % b, "loop is left only when size == resize_target or the table is being destroyed",
                           "resize loop can be left while size != resize_target: a target update made during the resize is lost", [f.blocks[b].insts[-1].where()])
+    # termination under destroy: if init_table / fini_table can give up on in_progress_destroy *before* having moved `size`
+    # (a no-progress return), size never reaches the target, so the resize loop itself must notice the flag on every round -
+    # a test hoisted in front of the loop does not.  If every destroy exit of the two helpers follows a size update the loop
+    # still terminates by progress and no in-loop test is demanded.
+    noprog = []
+    for name in ("init_table", "fini_table"):
+        t = lfht.fn(ctx, name)
+        rep.touch(t)
+        szst = [e.inst for e in pat.accesses(t, "cds_lfht.size", ("store", "rmw", "xchg", "cmpxchg"))]
+        pat.require(szst, "%s: size update" % name)
+        for tb, s_, a in pat.branch_edges_on(t, lambda a: a[0] == "ne" and a[2] == ("c", 0) and a[1][0] == "load" and a[1][1].endswith("in_progress_destroy")):
+            hit, _par = t.reach([t.entry()], [tb], avoid=lambda i: i in szst, include_start=True)
+            if hit is not None:
+                noprog.append((name, tb))
+    for comp in scc:
+        dl_in = [l for l in dl if l.blk.id in comp]
+        exits_on_destroy = any(a[0] == "ne" and a[2] == ("c", 0) and a[1][0] == "load" and a[1][1].endswith("in_progress_destroy")
+                               for b in comp for s_ in f.blocks[b].succ if s_ not in comp for a in ir.edge_atoms(f, b, s_))
+        ok = (not noprog) or (bool(dl_in) and exits_on_destroy)
+        rep.check(ok, "C09.loop", "resize.destroy-terminates", "under destroy the resize loop terminates: %s" % ("the helpers only bail out after moving size" if not noprog else "it re-tests in_progress_destroy every round"),
+                  "%s can return on in_progress_destroy without having changed size, and the `while (size != resize_target)` loop does not test the flag: the work-queue thread spins "
+                  "forever and the destroy work queued behind it never runs" % sorted(set(n for n, _ in noprog)), [tb.where() for _n, tb in noprog][:2] + [f.blocks[min(comp)].insts[0].where()])
     g = lfht.fn(ctx, "__cds_lfht_resize_lazy_launch")
     rep.touch(g)
     q = pat.calls(g, "urcu_workqueue_queue_work")
@@ -285,6 +307,32 @@ def rule_partition(ctx, rep, rid="C09.partition"):
                        what="every return either ran the inline fallback or passed the `threads created > 0` test")
     for i in fb:
         rep.check(ir.expr(f, i.args[0]) == ("arg", 0) and ir.expr(f, i.args[1]) == ("arg", 1), rid, "helper.fallback-args", "fallback processes the same table and level", "fallback called on different table/level", [i.where()])
+    # the inline fallback covers everything the threads did not: (start, len) is (0, len) or (S, len - S) on every way into it
+    def pairs(vs, vl, seen):
+        a, b = ir.strip_casts(f, vs), ir.strip_casts(f, vl)
+        ia = f.insts[a[1]] if a[0] == "i" else None
+        ib = f.insts[b[1]] if b[0] == "i" else None
+        if ia is not None and ib is not None and ia.op == "phi" and ib.op == "phi" and ia.blk.id == ib.blk.id and (ia.id, ib.id) not in seen:
+            seen = seen | {(ia.id, ib.id)}
+            out = []
+            db = dict((blk, v) for v, blk in ib.d["inc"])
+            for v, blk in ia.d["inc"]:
+                out += pairs(v, db[blk], seen)
+            return out
+        return [(ir.expr(f, vs, 6), ir.expr(f, vl, 6))]
+    for i in fb:
+        ps = pairs(i.args[2], i.args[3], frozenset())
+        bad = [(s_, l_) for s_, l_ in ps if not ((s_ == ("c", 0) and l_ == ("arg", 2)) or (l_ == ("bin", "sub", ("arg", 2), s_)))]
+        rep.check(len(ps) >= 2 and not bad, rid, "helper.fallback-covers-rest", "the inline fallback processes [start, len) completely: (0, len) or (S, len - S) on each of %d ways into it" % len(ps),
+                  "the inline fallback is called with (start, len) = %s: part of the level is neither handled by a worker thread nor inline "
+                  "(buckets left unlinked / unpopulated)" % [(ir.expr_str(a), ir.expr_str(b)) for a, b in bad][:2], [i.where()])
+    # partitions: work[t] = (t * partition_len, partition_len)
+    st = [s_ for s_ in pat.stores(f, "partition_resize_work.start")]
+    ln = [s_ for s_ in pat.stores(f, "partition_resize_work.len")]
+    pat.require(len(st) == 1 and len(ln) == 1, "partition_resize_helper: work item initialisation")
+    es, el = ir.expr(f, st[0].args[0], 4), ir.expr(f, ln[0].args[0], 4)
+    okp = es[0] == "bin" and es[1] == "mul" and el in (es[2], es[3]) and any(x[0] == "phi" for x in (es[2], es[3]))
+    rep.check(okp, rid, "helper.partitions", "worker t gets (t * partition_len, partition_len)", "work item is (start=%s, len=%s)" % (ir.expr_str(es), ir.expr_str(el)), [st[0].where()])
 
 
 def rule_order(ctx, rep):
